@@ -192,7 +192,20 @@ func gen(kind string) func(t *rapid.T) Case {
 				weighted = append(weighted, m, m)
 			}
 		}
-		c.Before = refl.GenSteps(t, weighted, 2, 12)
+		// half of the histories start with a phase of pure building calls
+		var build []string
+		for _, m := range methods {
+			switch m {
+			case "Add", "Append", "Prepend", "Insert", "Put", "Push", "Enqueue":
+				build = append(build, m, m)
+			case "Remove", "Pop", "Dequeue":
+				build = append(build, m)
+			}
+		}
+		if len(build) > 0 && rapid.Bool().Draw(t, "build-phase") {
+			c.Before = refl.GenSteps(t, build, 1, 14)
+		}
+		c.Before = append(c.Before, refl.GenSteps(t, weighted, 2, 10)...)
 		c.After = refl.GenSteps(t, weighted, 2, 10)
 		return c
 	}
